@@ -15,7 +15,7 @@ LEVEL_TEXT = ('Decides the parts of the property that are visible in source: eve
 LEVEL_NOTE = ('Trusted: Cython-subset front-end, interpreter, class-level transfer functions of libm (sqrt, hypot, log, atan2, copysign per C99 Annex F), float() of a decimal literal is correctly rounded (as strtod). '
               'Not decided: ulp-level accuracy and overflow thresholds for finite arguments.')
 EXPLANATION = ('R20.1 double-factorial literals and index guard; R20.4 integer powers; R20.5 legacy _sqrt_neg_python == principal root; '
-               'R20.6 cf_build_dblcmplx writes (re, im) to slots (0, 1); R20.2 Annex G class tables; R20.7 defining identities on every finite-argument path; R20.8 module constants; R20.9 exponent ranges of the intermediates of the interpreted square root over all finite doubles.')
+               'R20.6 cf_build_dblcmplx writes (re, im) to slots (0, 1); R20.2 Annex G class tables; R20.7 defining identities on every finite-argument path; R20.8 module constants; R20.9 exponent ranges of the intermediates of the interpreted square root over all finite doubles; R20.10 the interpreted (2l+1)!! table of the legacy starting conditions is exact (module-level construction interpreted, int64 wrap-around modelled).')
 
 
 def dfact(n):
@@ -202,6 +202,7 @@ def run(chk):
     chk.floor('R20.8', 7)
     legacy_sqrt_ranges(chk, repo)
     chk.floor('R20.9', 2)
+    legacy_double_factorials(chk, repo)
     chk.floor('R20.1', 50); chk.floor('R20.4', 10); chk.floor('R20.5', 21)
 
     from . import c20_annexg
@@ -394,6 +395,45 @@ def constants(chk, repo):
     kd = lits.get('SCALED_CEXP_K_D')
     chk.ob('R20.8', 'SCALED_CEXP_K_D == 1799 (the double-precision scaling exponent of the reference implementation)', isinstance(kd, ast.Constant) and kd.value == 1799, f'{ast.unparse(kd) if kd is not None else None}',
            mc.where(kd) if kd is not None else mc.rel(), key='R20.8|SCALED_CEXP_K_D', method='AST')
+
+
+# ------------------------------------------------------------------------------------------------ R20.10 the interpreted (2l+1)!! table of the legacy starting conditions
+def legacy_double_factorials(chk, repo):
+    """`l2p1_double_factorials` (TidalPy/radial_solver/numerical/initial/functions.py) is the interpreted counterpart of double_factorial(2l + 1): the module-level statements that
+    build it are executed by the interpreter (Gamma at integers is a factorial; numpy integer arrays are int64 and wrap as numpy does) and every entry must be the exact integer
+    (2l + 1)!!, which is what R20.1 decides the compiled table holds."""
+    mod = repo.by_path('TidalPy/radial_solver/numerical/initial/functions.py')
+    it = Interp(repo)
+    try:
+        tab = it.global_name(mod, 'l2p1_double_factorials')
+    except AnalysisError as ex:
+        raise AnalysisError(f'l2p1_double_factorials cannot be evaluated: {ex}')
+    if not isinstance(tab, (tuple, list)) or len(tab) < 11:
+        raise AnalysisError('l2p1_double_factorials is not a table of at least 11 entries (degrees 2..10 need indices up to 10)')
+    from math import factorial
+
+    def exact(node):
+        def h(n):
+            if n.op == 'fn' and n.val == 'gamma':
+                c = concrete(n.args[0])
+                if c is not None and Fraction(c).denominator == 1 and c >= 1:
+                    return X.const(factorial(int(c) - 1))
+            return None
+        return concrete(X.rewrite(X.lift(node), h))
+    from fractions import Fraction
+    bad = []
+    for l, v in enumerate(tab):
+        want = dfact(2 * l + 1)
+        got = exact(v) if not isinstance(v, (int, Fraction)) else v
+        if got is None or Fraction(got) != want:
+            bad.append(f'entry {l}: {float(got) if got is not None else "not a number"!r} instead of (2*{l}+1)!! = {want}')
+    chk.ob('R20.10', f'legacy l2p1_double_factorials: all {len(tab)} entries are the exact (2l + 1)!! (the value the compiled double_factorial(2l + 1) holds)', not bad, '; '.join(bad[:3]), mod.rel(),
+           key='R20.10|l2p1_double_factorials', method='module-level statements interpreted (Gamma at integers exact, int64 wrap-around modelled) + exact integer oracle')
+    # who reads the table indexes it with the degree (or degree + 1): the table must reach the largest degree the reader accepts
+    f = mod.defs.get('takeuchi_phi_psi_general')
+    if isinstance(f, ast.FunctionDef):
+        idx = [ast.unparse(n_.slice) for n_ in ast.walk(f) if isinstance(n_, ast.Subscript) and isinstance(n_.value, ast.Name) and n_.value.id == 'l2p1_double_factorials']
+        chk.note_analysed('readers', f'takeuchi_phi_psi_general reads l2p1_double_factorials[{", ".join(sorted(set(idx)))}]')
 
 
 # ------------------------------------------------------------------------------------------------ R20.9 exponent ranges of intermediates
